@@ -32,6 +32,31 @@ struct TableFilter {
 
 impl std::panic::RefUnwindSafe for TableFilterFactory {}
 
+/// A compaction filter that keeps every item and takes its time in `finish()` (C06: the
+/// window between the end of a merge and its commit is as wide as the user's callback).
+struct SlowKeepFactory {
+    micros: u64,
+}
+struct SlowKeep {
+    micros: u64,
+}
+impl Factory for SlowKeepFactory {
+    fn name(&self) -> &str {
+        "verif-slow-keep-filter"
+    }
+    fn make_filter(&self, _ctx: &lsm_tree::compaction::filter::Context) -> Box<dyn CompactionFilter> {
+        Box::new(SlowKeep { micros: self.micros })
+    }
+}
+impl CompactionFilter for SlowKeep {
+    fn filter_item(&mut self, _item: ItemAccessor<'_>, _ctx: &lsm_tree::compaction::filter::Context) -> lsm_tree::Result<Verdict> {
+        Ok(Verdict::Keep)
+    }
+    fn finish(self: Box<Self>) {
+        std::thread::sleep(std::time::Duration::from_micros(self.micros));
+    }
+}
+
 impl Factory for TableFilterFactory {
     fn name(&self) -> &str {
         "verif-table-filter"
@@ -96,6 +121,8 @@ pub struct Driver {
     expect_err: bool,
     /// appended to every written value (multi-tree runs: makes the trees' data differ)
     pub vsuffix: Option<u8>,
+    /// install a keep-everything compaction filter whose `finish()` sleeps this long
+    pub slow_filter_us: Option<u64>,
     /// largest GC watermark passed to any maintenance call so far
     max_wm: SeqNo,
 }
@@ -143,6 +170,7 @@ impl Driver {
             list_files: true,
             expect_err: false,
             vsuffix: None,
+            slow_filter_us: None,
             max_wm: 0,
         }
     }
@@ -183,6 +211,8 @@ impl Driver {
                 table: self.verdicts.clone(),
                 log: self.filter_log.clone(),
             })));
+        } else if let Some(us) = self.slow_filter_us {
+            config = config.with_compaction_filter_factory(Some(Arc::new(SlowKeepFactory { micros: us })));
         }
         config
     }
